@@ -61,7 +61,7 @@ def make_signer(rng, g):
     axprv = w.key(acct)
     origin = "[%s/%s]" % (w.fp.hex(), "/".join("%dh" % (x - H) for x in acct))
     d = Descriptor.from_string("wpkh(%s%s/<0;1>/*)" % (origin, axprv.to_base58()))
-    pred = (lambda rec: rec[0] == "A" and rec[1][:3] == acct)
+    pred = (lambda rec: rec[0] == "A" and rec[1][:len(acct)] == acct)
     if kind == "desc":
         return "desc", d, pred
     return "desckey", d.keys[0], pred
@@ -127,7 +127,8 @@ def check_case(c, g, signer_name, signer, pred, authorised, use_view):
                 if f is not None and f & 3 == 3 and any(pred(r) for r in d["keys"]):
                     c.tally("undefined-digest")
                     return
-        c.fail("sign_with raised %s" % type(e).__name__, dict(rec0, error=str(e)[:200]))
+        import traceback
+        c.fail("sign_with raised %s" % type(e).__name__, dict(rec0, error=str(e)[:200], traceback=traceback.format_exc()[-900:]))
         return
     # expected by the property
     expected = {}
